@@ -1,0 +1,12 @@
+//go:build verif
+
+package socks5
+
+import "net"
+
+// Exports for the external verification harness (property C11). Add-only; compiled only with -tags verif.
+
+// VerifC11HandleAuthentication runs the unexported handleAuthentication of s on conn.
+func VerifC11HandleAuthentication(s *Server, conn net.Conn) error {
+	return s.handleAuthentication(conn)
+}
